@@ -108,6 +108,25 @@ def run(ctx):
             seen_c.add(key)
             ctx.report(key, "create query %s built with the %s builder: %r binds %s, creates %s, reads %s; the other builder binds %s, creates %s (%s)" % (
                 json.dumps(ev["expected"]), ev["builder"], ev["text"], f["bound"], f["created"], f["refs"], ev["peer_bound"], ev["peer_created"], ev["note"]), {"create_shape": ev["expected"]})
+    # 3c. the Neo4j driver's query rewrite (reached through the verif-tagged export): meaning-preserving on temporal texts, the corpora
+    #     and the grammar corpus
+    if rep is None or "rewrite_text" in rep:
+        ctx.grammar_corpus(maxlen=2)
+        rt = os.path.join(ctx.work, "rewrite.ndjson")
+        ctx.vh(["front", "rewrite", "--out", rt] + (["--text", rep["rewrite_text"]] if rep else []), timeout=1800)
+        n5, rej5 = validate_histories(ctx, AREA, "CypherExprTrace", rt, chunk_events=40000, max_cand=40, parallel=6)
+        ctx.cov["traces_validated_against_impl"] += n5
+        ctx.cov["evaluations"] += n5 + len(rej5)
+        ctx.cov["rewrite_texts"] = n5 + len(rej5)
+        ctx.cov["rewrite_changed"] = sum(1 for ln in open(rt) if '"changed":true' in ln)
+        seen_r = set()
+        for hid, ev, events, pos in rej5:
+            what = "panic" if ev["panic"] else "rewritten-text-does-not-parse" if not ev["reparse_ok"] else "meaning-changed"
+            key = "neo4j-rewrite/%s/%s" % (ev["class"].split(":")[0], what)
+            if key in seen_r:
+                continue
+            seen_r.add(key)
+            ctx.report(key, "the Neo4j driver rewrites %r to %r (%s)" % (ev["text"], ev["rewritten"], ev["note"]), {"rewrite_text": ev["text"]})
     # 4. literals of every type, with values that need all the precision of their type
     if not ctx.replay:
         lt = os.path.join(ctx.work, "literals.ndjson")
